@@ -28,6 +28,7 @@ Init(ep, cfg) ==
     [role |-> ep, cfg |-> cfg,
      h |-> EmptyMap,          \* stream id -> live application handles + number of accepted send calls
      contRun |-> 0,           \* CONTINUATION frames consumed for the header block in progress
+     emptyIn |-> 0,           \* empty, non-final DATA frames consumed
      srAlive |-> TRUE,        \* (client) some SendRequest handle is alive
      goIn |-> FALSE,          \* a GOAWAY was received
      lastStore |-> -1,        \* store_len of the latest snapshot
@@ -45,8 +46,9 @@ Live(x) == x.send \/ x.recv \/ x.push
 
 
 \* ---- wire view of a stream ------------------------------------------------------------------------------
-WS(w, s) == IF s \in DOMAIN w.st THEN w.st[s] ELSE [i |-> "idle", o |-> "idle", rstOut |-> 0, surfaced |-> FALSE, resR |-> FALSE]
-ClosedOnWire(x) == x.i = "rst" \/ x.o = "rst" \/ x.rstOut > 0 \/ (x.i = "es" /\ x.o = "es")
+WS(w, s) == IF s \in DOMAIN w.st THEN w.st[s] ELSE [i |-> "idle", o |-> "idle", rstOut |-> 0, surfaced |-> FALSE, resR |-> FALSE, resL |-> FALSE]
+\* (a promised stream has one direction only)
+ClosedOnWire(x) == x.i = "rst" \/ x.o = "rst" \/ x.rstOut > 0 \/ (x.i = "es" /\ (x.o = "es" \/ x.resR)) \/ (x.resL /\ x.o = "es")
 OpenOnWire(x) == ~ClosedOnWire(x) /\ (x.i # "idle" \/ x.o # "idle")
 
 \* ---- application holdings, from API events --------------------------------------------------------------
@@ -152,10 +154,22 @@ Stats(b, e, l, w, blocked) ==
               THEN Check(b5, "C19.counts_idle", s.num_recv_streams <= openPeer /\ s.num_send_streams <= openLocal + pendingOpen, l, 0,
                          <<"num_recv_streams", s.num_recv_streams, "open", openPeer, "num_send_streams", s.num_send_streams, "open", openLocal + pendingOpen>>)
               ELSE b5
+        \* records unlinked from the id map but still allocated (listed by the hook): each must belong to a stream the
+        \* application still holds (closed, unlinked, kept alive by the handle) or be waiting to be handed to the application
+        unl == IF dense THEN <<>> ELSE s.unlinked
+        unjust == {j \in 1..Len(unl) : LET r == unl[j] IN ~Live(H(b, r.id)) /\ ~(r.is_pending_accept /\ ~WS(w, r.id).surfaced)}
+        queued == {j \in unjust : LET r == unl[j] IN r.is_pending_send \/ r.is_pending_send_capacity \/ r.is_pending_window_update
+                                                      \/ r.is_pending_open \/ r.is_pending_push \/ r.reset_at}
+        b6a == IF judge
+               THEN Check(b6, "C19.slab_idle", unjust = {}, l, 0,
+                          IF unjust = queued
+                          THEN <<"closed_unreferenced_record_lingers_in_an_internal_queue", [j \in unjust |-> unl[j].id]>>
+                          ELSE <<"unlinked_record_kept_for_no_reason", [j \in unjust \ queued |-> <<unl[j].id, unl[j].state>>]>>)
+               ELSE b6
         b7 == IF judge /\ s.slab_len = 0
-              THEN Check(b6, "C19.flow_idle", s.send_available = s.send_window /\ s.in_flight_data = 0 /\ s.recv_buffer_len = 0 /\ s.send_buffer_len = 0,
+              THEN Check(b6a, "C19.flow_idle", s.send_available = s.send_window /\ s.in_flight_data = 0 /\ s.recv_buffer_len = 0 /\ s.send_buffer_len = 0,
                          l, 0, <<s.send_available, s.send_window, s.in_flight_data, s.recv_buffer_len, s.send_buffer_len>>)
-              ELSE b6
+              ELSE b6a
     IN [b7 EXCEPT !.lastStore = s.slab_len]
 
 \* ---- frames E consumed --------------------------------------------------------------------------------
@@ -166,9 +180,15 @@ In(b, e, l, w) ==
         b2 == IF f.ty = "CONTINUATION" /\ Cfg(b).max_hdr_list >= 0
               THEN Check(b1, "C18.continuation_bound", n <= ContBound(b), l, f.sid, <<n, ContBound(b)>>)
               ELSE b1
+        \* empty DATA frames (padding or not) that do not end a stream carry nothing: an endpoint reads only so many of them
+        \* (100 over the life of the connection in this library; the slack covers frames read in the same batch)
+        ne == b.emptyIn + (IF f.ty = "DATA" /\ f.dlen = 0 /\ ~f.es /\ f.bad = "" THEN 1 ELSE 0)
+        b2a == IF ne > b.emptyIn
+               THEN Check([b2 EXCEPT !.emptyIn = ne], "C18.empty_data_bound", ne <= 100 + 64 \/ w.dead \/ w.ended \/ w.goOutN > 0, l, f.sid, ne)
+               ELSE b2
         b3 == IF f.ty \in {"PING", "SETTINGS"} /\ ~f.ack
-              THEN Check(b2, "C18.owed_replies_bound", Len(w.owed) + Len(w.pongs) <= OwedBound(b), l, 0, <<Len(w.owed), Len(w.pongs)>>)
-              ELSE b2
+              THEN Check(b2a, "C18.owed_replies_bound", Len(w.owed) + Len(w.pongs) <= OwedBound(b), l, 0, <<Len(w.owed), Len(w.pongs)>>)
+              ELSE b2a
     IN b3
 
 \* ---- C19: an idle client connection closes itself -------------------------------------------------------
